@@ -476,13 +476,13 @@ LOWER_WORDS = ("cuda", "cpu", "mps", "gpu")
 
 
 def lower_facts(t):
-    """str.lower (TRUSTED): idempotent, length preserving, fixes lowercase words, maps a lowercase prefix to itself."""
+    """str.lower (TRUSTED): idempotent, length preserving, fixes the lowercase words cuda / cpu / mps / gpu."""
     t = sterm(t)
     lo = LOWER(t)
     out = [LOWER(lo) == lo, z3.Length(lo) == z3.Length(t)]
     for w in LOWER_WORDS:
         w = z3.StringVal(w)
-        out += [z3.Implies(t == w, lo == w), z3.Implies(z3.PrefixOf(w, t), z3.PrefixOf(w, lo))]
+        out += [z3.Implies(t == w, lo == w)]
     return out
 
 
